@@ -487,6 +487,9 @@ func EncryptFragment(f *Fragment, key, iv []byte, ipd *InitProtectData) error {
 		if len(patterns[i]) > 0 {
 			auxInfoSize += 2 + 6*len(patterns[i])
 		}
+		if (len(patterns[i]) > 0) != (len(patterns[0]) > 0) {
+			return fmt.Errorf("sample %d: mix of samples with and without sub-samples in one fragment is not supported", i+1)
+		}
 		if auxInfoSize > 255 {
 			return fmt.Errorf("sample %d: %d sub-samples give %d bytes of auxiliary information, more than the 255 a saiz entry can hold",
 				i+1, len(patterns[i]), auxInfoSize)
